@@ -826,6 +826,10 @@ def CheckProofOfWork(hash, nBits):
     """
     target = uint256_from_compact(nBits)
 
+    # A compact value with the sign bit set denotes a negative (or zero) target
+    if nBits & 0x00800000:
+        raise CheckProofOfWorkError("CheckProofOfWork() : nBits below minimum work")
+
     # Check range
     if not (0 < target <= coreparams.PROOF_OF_WORK_LIMIT):
         raise CheckProofOfWorkError("CheckProofOfWork() : nBits below minimum work")
